@@ -1287,7 +1287,7 @@ func runFsPath(c *Ctx) (err error) {
 		}
 		defer unlock()
 	}
-	sandbox, e := os.MkdirTemp(fsWorkDir(c), "fspath-")
+	sandbox, e := os.MkdirTemp(fsWorkDir(c), scratchPrefix("fspath"))
 	if e != nil {
 		return e
 	}
